@@ -337,12 +337,20 @@ def check(ctx, width, endianness, ep, domain):
     # preceding `first` is sent as a zero-length packet), so only byte 0 is demanded for it
     for name, when, what in (('first', lambda c: c == 0, 'on byte 0'),
                              ('last', lambda c: c == nbytes - 1, 'on byte %d only' % (nbytes - 1))):
-        ds = ir.drivers('self.interface.tx.' + name, exact=True)
-        ok = len(ds) == 1 and ds[0].state == (fsm.id, T) and not ds[0].guard and ds[0].domain == 'comb'
+        # every driver is a combinatorial assignment inside the transmit state; per byte index the last assignment whose
+        # guard holds gives the value (`first.eq(cnt == 0)` and `with m.If(cnt == 0): first.eq(1)` are the same flag)
+        ds = sorted(ir.drivers('self.interface.tx.' + name, exact=True), key=lambda a: a.order)
+        ok = bool(ds) and all(a.state == (fsm.id, T) and a.domain == 'comb' for a in ds)
         got = None
         if ok:
             try:
-                got = [bool(ev(ds[0].rhs, {counter: c})) for c in range(nbytes)]
+                got = []
+                for c in range(nbytes):
+                    v = 0
+                    for a in ds:
+                        if all(bool(ev(l.e, {counter: c})) == l.pos for l in a.guard):
+                            v = ev(a.rhs, {counter: c})
+                    got.append(bool(v))
             except NoEval as ex:
                 ctx.need(False, 'tx.%s as a function of the byte counter: %s' % (name, ex))
             ok = got == [when(c) for c in range(nbytes)] or (name == 'first' and got[0])
